@@ -283,13 +283,7 @@ fn run_case(run: &mut Run, ctx: &Ctx, e: &E, stream: &str) {
     } else {
         "impl-result=exact"
     });
-    // pi-survives-limit: the result is the bare symbol pi, the input is deeper than LIMIT and mentions pi
-    let known_struct = if matches!(out, E::Pi) && e.depth() > 10 && e.any(&|s| matches!(s, E::Pi)) {
-        Some("pi-survives-limit")
-    } else {
-        known
-    };
-    run.case(lit, &show(e), changed, known_struct);
+    run.case(lit, &show(e), changed, known);
 }
 
 fn parse_shown(_s: &str) -> Option<E> {
@@ -335,7 +329,7 @@ fn main() {
         E::infix(x(), Op::Star, n(1.0 + TINY)),
     ];
     let mut corpus = corpus;
-    // pi-survives-limit: nine times 0+(...) around (%x*pi)/%x
+    // pi-survives-limit (fixed by 7232075): nine times 0+(...) around (%x*pi)/%x
     let mut deep = E::infix(E::infix(x(), Op::Star, E::Pi), Op::Slash, x());
     for _ in 0..9 {
         deep = E::infix(n(0.0), Op::Plus, deep);
